@@ -7,14 +7,16 @@
   Relations between independent literals are kernel-decided numeric checks at exact rationals
   with a rational enclosure of π.
   Table layer (P-tab, `decide +kernel` over the whole regenerated table; parts in
-  `C15Tab1..3.lean`): names/aliases/suffixes/registries/unit systems, unit table vs constants,
+  `C15Tab1..4.lean`): names/aliases/suffixes/registries/unit systems, unit table vs constants,
   values vs the published ones.
 -/
 import UnytModel.PhysicalConstantsCheck
-import UnytProofs.Real.C15Mono
+import UnytProofs.Real.C15Source
+import UnytProofs.Lemmas.C15Subst
 import UnytProofs.C15Tab1
 import UnytProofs.C15Tab2
 import UnytProofs.C15Tab3
+import UnytProofs.C15Tab4
 
 namespace Unyt.C15
 open Unyt PCheck Generated Ref.C15 C15Real
@@ -50,43 +52,35 @@ example : relations.length ≥ 14 ∧ (baseConstants ratioDefs).length > 50 := b
     ends of a 20-digit rational enclosure of π, at the exact decimals of the source -/
 theorem independent_literals_agree : numRelationsOk = true := by decide +kernel
 
-/-! ### the unit table against the constants -/
+/-- … and over ℝ, at the source's literals and the true π: `|lhs/rhs − 1|` is within the class -/
+theorem independent_literals_agree_real :
+    ∀ r ∈ numRelations,
+      |(closeRel r.lhs).eval sourceEnv / (closeRel r.rhs).eval sourceEnv - 1| ≤ ((r.cls.tol : ℚ) : ℝ) := by
+  intro r hr
+  have h := independent_literals_agree
+  unfold numRelationsOk at h
+  rw [List.all_eq_true] at h
+  exact numRelationOk_sound base_constants_positive r (h r hr)
 
-/-- the full-strength statement: every unit symbol that is also a constant denotes the same
-    quantity (declared homonyms `G`, `hbar` aside, which must differ in dimension) -/
-def C15_unit_full : Prop := unitAndConstantAgree [] = true
+/-- closed forms mean what Python computed: evaluating after substituting definitions for names
+    is evaluating in the environment that binds the names to the values of their definitions -/
+theorem closed_form_semantics (σ : Defs) (ρ : String → ℝ) (e : CExpr) :
+    (e.subst σ).eval ρ = e.eval (CExpr.substEnv σ ρ) := CExpr.eval_subst σ ρ e
 
-theorem unit_and_constant_agree_partial : unitAndConstantAgree exclUnitVsConstant = true := by
-  decide +kernel
-
-/-- the excluded symbol really disagrees (unit `mp` is fed from `mass_hydrogen_kg`, constant `mp`
-    from `mass_proton_kg`): the exclusion cannot outlive its finding -/
-theorem unit_exclusions_fail : exclUnitVsConstant.all (fun k => !unitVsConstOkByName k) = true := by
-  decide +kernel
-
-theorem C15_unit_counterexample : ¬ C15_unit_full := by
-  unfold C15_unit_full; decide +kernel
-
-/-- the same at the source level: the unit cell and the constant cell have the same normal form
-    over the base constants (so the two can not drift apart by editing a literal) -/
-theorem unit_and_constant_agree_symbolic_partial :
-    unitAndConstantAgreeSymbolic exclUnitVsConstant = true := by decide +kernel
-
-theorem unit_symbolic_exclusions_fail :
-    exclUnitVsConstant.all (fun k => !unitVsConstSymbolicOk k) = true := by decide +kernel
-
-/-! ### values against the published ones -/
-
-def C15_values_full : Prop := valuesInClass [] = true
-
-/-- every row of `physical_constants` (outside the exclusion list) has a reference value, the
-    reference dimension, and lies within the tolerance class of the reference value -/
-theorem values_in_class_partial : valuesInClass exclValue = true := by decide +kernel
-
-theorem value_exclusions_fail : exclValue.all (fun k => !valueOkByName k) = true := by decide +kernel
-
-theorem C15_values_counterexample : ¬ C15_values_full := by
-  unfold C15_values_full; decide +kernel
+/-- the double stored for every constant is (within 2·2⁻⁴⁵ on the squares) the real value of its
+    source-level definition at the source's literals — so the relations above are statements
+    about the numbers the library holds, up to that rounding -/
+theorem const_doubles_are_symbolic_values :
+    ∀ c ∈ constTable, ∀ e, constCells.lookup c.spec.name = some e →
+      |((e.subst closedRatios).eval sourceEnv) ^ 2 - ((ratOfBits c.value * ratOfBits c.value : ℚ) : ℝ)|
+        ≤ ((2 * guiseTol : ℚ) : ℝ) * |((ratOfBits c.value * ratOfBits c.value : ℚ) : ℝ)| := by
+  intro c hc e he
+  have h := const_cells_match_doubles
+  unfold constCellsMatchDoubles at h
+  rw [List.all_eq_true] at h
+  have h2 := h c hc
+  simp only [he] at h2
+  exact cellMatchesDouble_sound base_constants_positive _ _ h2
 
 /-! ### the property -/
 
@@ -97,6 +91,9 @@ def C15_full : Prop :=
   ∧ allSpaces aliasesEqual = true ∧ allSpaces suffixesEqual = true
   ∧ allSpaces (registryEqual pcRows) = true ∧ bitwiseEqual pcRows topRows = true
   ∧ unitAndConstantAgree [] = true ∧ valuesInClass [] = true
+
+example : (C15_full → C15_unit_full) ∧ (C15_full → C15_values_full) :=
+  ⟨fun h => h.2.2.2.2.2.2.2.2.1, fun h => h.2.2.2.2.2.2.2.2.2⟩
 
 /-- … holds outside the two literal exclusion lists -/
 theorem C15_partial :
